@@ -161,8 +161,8 @@ fn build_exc_program(isa: &Isa, main: &[u8], h1: &[u8], h2: &[u8], base: u32) ->
     ExcProg { image, entry: base, end_pc }
 }
 
-fn history_unit(max_inj: usize) -> Unit {
-    let mains = seqs_upto(&[1, 2, 3, 0], 3);
+fn history_unit(max_inj: usize, main_len: usize) -> Unit {
+    let mains = seqs_upto(&[1, 2, 3, 0], main_len);
     let h1s = seqs_upto(&[2, 3], 2);
     let h2s = seqs_upto(&[3], 2);
     // schedules: up to `max_inj` (main-level boundary index, vector) pairs with increasing boundary indices
@@ -188,8 +188,8 @@ fn history_unit(max_inj: usize) -> Unit {
     let total = nprog * nsched;
     let chunks = (total / 4000).clamp(1, 512);
     let dom = format!(
-        "{} guest programs (main = every sequence of <=3 items over {{TRAPA #1,#2,#3, marker}}; TRAPA #1 handler = every sequence of <=2 nested traps over {{#2,#3}}; #2 handler over {{#3}}; interrupt handlers nest further traps) x {} injection schedules (<= {} interrupt requests from {{1,36,63}} at any main-level boundary) = {} complete histories, nesting depth up to 5",
-        nprog, nsched, max_inj, total
+        "{} guest programs (main = every sequence of <={} items over {{TRAPA #1,#2,#3, marker}}; TRAPA #1 handler = every sequence of <=2 nested traps over {{#2,#3}}; #2 handler over {{#3}}; interrupt handlers nest further traps) x {} injection schedules (<= {} interrupt requests from {{1,36,63}} at any main-level boundary) = {} complete histories, nesting depth up to 5",
+        nprog, main_len, nsched, max_inj, total
     );
     Unit::new(&format!("histories/inj<={}", max_inj), chunks, &dom, move |ctx, chunk| {
         let (lo, hi) = chunk_range(total, chunks, chunk);
@@ -288,7 +288,7 @@ fn history_unit(max_inj: usize) -> Unit {
 
 pub fn c06(tier: Tier, _seed: u64) -> Prop {
     let mut units = e1_units(tier);
-    units.push(history_unit(if tier == Tier::Thorough { 3 } else { 2 }));
+    units.push(history_unit(if tier == Tier::Thorough { 3 } else { 2 }, if tier == Tier::Thorough { 4 } else { 3 }));
     let _ = flow::forests;
     Prop {
         id: "C06",
